@@ -18,3 +18,142 @@ c.ens("result-shape", lambda S_: And(
     Val.is_VRef(S_.new.lget(S_.result, 1)), S_.new.typeof(S_.new.lget(S_.result, 1)) == S_.cid("list"),
     S_.new.llen(S_.new.lget(S_.result, 1)) >= 0, S_.elems(S_.new.lget(S_.result, 1), OBJ("WatchResult", inv=False)),
     Val.is_VRef(S_.new.lget(S_.result, 2)), S_.new.typeof(S_.new.lget(S_.result, 2)) == S_.cid("dict")))
+
+from pyvc.core import LogEntry, SymCallable
+from pyvc.contract import extern
+
+VFormat = z3.Function("VFormat", Val, S)       # the text string.Formatter produces for a template (opaque, trusted)
+
+
+@extern("Formatter.vformat", "string.Formatter.vformat: literal text kept, {{ }} unescaped, each {field} replaced by "
+                             "the formatted first component of get_field(field); ValueError for a malformed template")
+def _vformat(it, args, kwargs, node, anchor):
+    fmt_self, template = args[0], args[1]
+    it.st.log.append(LogEntry("vformat", list(args), kwargs, None, anchor))
+    k = it.ctx.choose([z3.Bool("template_has_no_field"), z3.Bool("template_has_a_field"), z3.Bool("template_malformed")],
+                      "template shape")
+    if k == 2:
+        it.raise_("ValueError", anchor)
+    if k == 1:
+        # an arbitrary field of the template (for-each lifting over the fields)
+        name = Val.VStr(it.ctx.fresh("field_name", S))
+        gf = it.getattr_(fmt_self, "get_field", node)
+        res = it.call_value(gf, [name, args[2], args[3]], {}, node, anchor=anchor + "/get_field")
+        it.st.log.append(LogEntry("field_rendered", [name, res], {}, None, anchor))
+    return Val.VStr(VFormat(template))
+
+
+c = REGISTRY_PROCESS_LOG = __import__("pyvc.contract", fromlist=["REGISTRY"]).REGISTRY[LA + ":LogActionContext.process_log"]
+c.req("template-is-text", lambda S_: Val.is_VStr(S_.a.log_msg))
+c.ens("prefixed-template-text", lambda S_: sv(S_.new.lget(S_.result, 0)) == z3.Concat(z3.StringVal("[deep] "), VFormat(S_.a.log_msg)))
+
+
+def _pl_log(S_, kind):
+    """every {field} is evaluated once as a LOG watch in the paused frame, its watch result is collected and the
+    text used for it is the string form eval_watch produced (error text when evaluation failed)."""
+    if kind != "return":
+        return []
+    ews = S_.calls("eval_watch")
+    fr = S_.calls("field_rendered")
+    out = [("template-formatted-once", "LOG", z3.BoolVal(len(S_.calls("vformat")) == 1), None)]
+    if fr:
+        name, res = fr[0].args
+        n = S_.new
+        out.append(("field-evaluated-once-as-a-log-watch", "LOG", And(
+            z3.BoolVal(len(ews) == 1), ews[0].args[1] == name if ews else z3.BoolVal(False),
+            ews[0].args[2] == VStr("LOG") if ews else z3.BoolVal(False)), None))
+        if ews:
+            r = ews[0].result
+            watches = n.lget(S_.result, 1)
+            out.append(("field-text-and-watch-result-recorded", "LOG", And(
+                n.lget(res, 0) == n.lget(r, 2), n.lget(res, 1) == name,
+                n.llen(watches) == 1, n.lget(watches, 0) == n.lget(r, 0)), None))
+    else:
+        out.append(("no-field-no-watch", "LOG", z3.BoolVal(len(ews) == 0), None))
+    return out
+
+
+c.exit_check(_pl_log)
+
+# ---------------------------------------------------------------- LogActionResult.process
+@class_invariant("LogActionResult")
+def inv_log_result(S_, r):
+    h = S_.new
+    return And(S_.pre(h.f(r, "action"), "LocationAction"), Val.is_VStr(h.f(r, "log")),
+               Val.is_VStr(h.f(h.f(r, "action"), "LocationAction.__id")))
+
+
+c = contract(LA, "LogActionResult.process", ["C16", "C20"])
+c.param("self", OBJ("LogActionResult")).param("ctx", OBJ("TriggerContext"))
+c.init_ghost = lambda S_: __import__("specs.c20_plugins", fromlist=["x"]).install_plugin_callbacks(S_)
+c.result = VAL
+c.host_ops_exc_base = "Exception"
+c.logged = "ActionResult.process"
+c.modifies = lambda S_: [("all",)]
+c.sig("Exception", "logger-plugin-failed")       # contained per result by TriggerContext.__exit__
+
+
+def _lar_log(S_, kind):
+    """the message goes to the tracepoint logger labelled with the tracepoint's id and the trigger's context id,
+    each in its own place: log_tracepoint(log_msg, tp_id, ctx_id)."""
+    calls = S_.calls("log_tracepoint")
+    if not calls:
+        return []
+    e = calls[0]
+    h = S_.old
+    tp_id = h.f(h.f(S_.a.self, "action"), "LocationAction.__id")
+    ctx_id = h.f(S_.a.ctx, "TriggerContext.__id")
+    return [("message-tracepoint-id-context-id-in-their-places", "LOG", And(
+        z3.BoolVal(len(calls) == 1), e.args[1] == h.f(S_.a.self, "log"), e.args[2] == tp_id, e.args[3] == ctx_id), None)]
+
+
+c.exit_check(_lar_log)
+
+CS = "config/config_service.py"
+c = contract(CS, "ConfigService.tracepoint_logger", [])
+c.param("self", OBJ("ConfigService"))
+c.result = OPT(HOSTOBJ)
+c.logged = "tracepoint_logger"
+c.modifies = lambda S_: []
+c.coarse = True
+
+from .c10_conditions import inv_action_context
+
+
+@class_invariant("LogActionContext")
+def inv_log_context(S_, a):
+    """log actions are only built for tracepoints that carry a log message (build_log_action / snapshot log branch)"""
+    h = S_.new
+    cfg = h.f(h.f(a, "location_action"), "LocationAction.__config")
+    return And(inv_action_context(S_, a), h.dhas(cfg, "log_msg"), Val.is_VStr(h.dget(cfg, "log_msg")))
+
+
+# ---------------------------------------------------------------- LogActionContext._process_action
+c = contract(LA, "LogActionContext._process_action", ["C16"])
+c.param("self", OBJ("LogActionContext"))
+
+c.result = VAL
+c.logged = "_process_action"
+c.modifies = lambda S_: [("all",)]
+c.protects = lambda S_: {"fields": ["location_action", "trigger_context"], "lists": [], "dicts": []}
+c.sig("Exception", "template-cannot-be-parsed")
+
+
+def _lpa_log(S_, kind):
+    if kind != "return":
+        return []
+    pl = S_.calls("process_log")
+    att = S_.calls("attach_result")
+    h = S_.old
+    cfg = h.f(h.f(S_.a.self, "location_action"), "LocationAction.__config")
+    out = [("one-message-per-permitted-hit", "LOG", z3.BoolVal(len(pl) == 1 and len(att) == 1), None)]
+    if pl and att:
+        n = S_.new
+        res = att[0].args[1]
+        out.append(("configured-template-rendered-and-attached", "LOG", And(
+            pl[0].args[1] == h.dget_or(cfg, "log_msg", VNone),
+            n.f(res, "log") == n.lget(pl[0].result, 0), n.f(res, "action") == h.f(S_.a.self, "location_action")), None))
+    return out
+
+
+c.exit_check(_lpa_log)
